@@ -31,6 +31,18 @@ CLAIMED = {
  "C03": dict(
    text="Path-sensitive accumulator analysis over every product function that owns a Vec<Diagnostic> (local, visitor field or tuple part): diagnostics that may have been collected must be read or moved out before Ok is returned; every name-keyed HashMap insert of a declaration in the analyzer must inspect the returned Option or be guarded by a failed lookup; every declaration kind parked by name in the topological re-assembly must also be a graph node; the tokenizer's diagnostics gate the parse. Decides these masking mechanisms for all file sets; companion-independence of individual rule predicates is not decided.",
    design="3 C03", technique="static analysis: typestate dataflow over MIR CFG (accumulator Clean/Dirty/Checked/Moved), result-use analysis, cross-check of match arms against visitor overrides"),
+ "C05": dict(
+   text="Provenance analysis of every SourceSpan field across parser and DSL constructors (token / default / copied-from, resolved through parameters, closures and Located impls to a fixed point) against every Label::span site of the analyzer: a label must not read a span that is only ever default(). join/join2 field pairing, the file-id fold (only fold_source_span overridden, start/end kept, reach of fold_id/fold_source_span, hidden containment edges, parse_program passes through the transform), token/identifier construction from one token and one lexer state, map_label reads start and end, no `+= 0` counter update. Tiling and line/column values are not decided.",
+   design="3 C05", technique="static analysis: field-sensitive provenance fixpoint over MIR, traversal-graph reachability for Fold, aggregate operand provenance"),
+ "C07": dict(
+   text="All add_edge sites of the declaration graph are classified by the provenance of their endpoints (declared vs referenced name fields) and must share one orientation; every InitialValueAssignmentKind variant that can name another declaration must contribute an edge or be in the cannot-cycle table with its reason; toposort's cycle error maps to RecursiveCycle and is propagated; the alias walk has a fresh local seen-set tested on every back edge whose hit yields EnumRecursive. Exactness on all graphs is not decided (petgraph trusted).",
+   design="3 C07", technique="static analysis: operand provenance at call sites, match-arm coverage vs type definition, CFG back-edge/dominance checks"),
+ "C10": dict(
+   text="For each of the renderer's overrides every non-span field of the node type must be read, handed to the default traversal or to a helper (else two different libraries render alike); every constant word/symbol the renderer writes must be in the lexer/grammar vocabulary; sibling matches over StringType must agree on quotes. Today's findings are frozen by the rendered fixtures and recorded as known findings. parse(render(L)) == L itself is not decided.",
+   design="3 C10", technique="static analysis: field-read completeness over MIR per override, vocabulary inclusion against lexer attributes and grammar literals, sibling cross-check"),
+ "C14": dict(
+   text="Byte-reading/decoding calls in product code occur only in source::path_to_source; it uses encoding_rs::Encoding::decode (BOM sniffing) over the constants [UTF_8, WINDOWS_1252] in that order (statics resolved from MIR pointer constants) and accepts output only when had_errors is false; every string range-index site reachable from the CLI/LSP entry points is discharged or triaged, and map_label's slice bounds are the label's own location fields. Cross-encoding equality of positions is not decided.",
+   design="3 C14", technique="static analysis: who-may-call over resolved callees, constant/static resolution, CFG gate check, slice-site inventory"),
  "C06": dict(
    text="Every iteration over a std HashMap/HashSet in product code is found through resolved callees and classified: flowing into an ordered container is a finding, order-free consumers are a frozen table with reasons, anything else is unclassified and reported. FileId equality/hash must be the derived structural ones. Pipeline ordering obligations (concatenate before transforms, toposort first, table-filling walk dominates resolving fold, no positional indexing of Library.elements) checked by dominance on MIR. Permutation/partition invariance of verdicts themselves is not decided.",
    design="3 C06", technique="static analysis: resolved-callee site inventory, forward data-flow slice to collectors, CFG dominance"),
